@@ -398,24 +398,24 @@ Qed.
    real cells kept *)
 Lemma row_cells : forall blank cols rows nonempty aligns this_row k ne',
   try_opening_row_cells blank cols rows nonempty aligns this_row = Some (k, ne') ->
-  k = aligns /\ exists cells, this_row = Some cells /\ ne' = nonempty + Nat.min aligns cells /\
-  blank = false /\ (N.of_nat (autocompleted cols rows nonempty) <= max_autocompleted_cells)%N.
+  k = aligns /\ exists cells, this_row = Some cells /\ ne' = (nonempty + N.of_nat (Nat.min aligns cells))%N /\
+  blank = false /\ (autocompleted cols rows nonempty <= max_autocompleted_cells)%N.
 Proof.
   intros blank cols rows nonempty aligns this_row k ne' H. unfold try_opening_row_cells in H.
   destruct blank; [discriminate|].
-  destruct (N.ltb max_autocompleted_cells (N.of_nat (autocompleted cols rows nonempty))) eqn:E; [discriminate|].
+  destruct (N.ltb max_autocompleted_cells (autocompleted cols rows nonempty)) eqn:E; [discriminate|].
   destruct this_row as [cells|]; [|discriminate].
   rewrite cell_loop_spec in H by lia. rewrite cell_loop_spec in H by lia.
-  injection H as <- <-. split; [lia|]. exists cells. split; [reflexivity|]. split; [lia|]. split; [reflexivity|].
+  injection H as <- <-. split; [lia|]. exists cells. split; [reflexivity|]. split; [f_equal; f_equal; lia|]. split; [reflexivity|].
   apply N.ltb_ge. exact E.
 Qed.
 
 Lemma row_refused : forall blank cols rows nonempty aligns this_row,
   try_opening_row_cells blank cols rows nonempty aligns this_row = None <->
-  blank = true \/ (max_autocompleted_cells < N.of_nat (autocompleted cols rows nonempty))%N \/ this_row = None.
+  blank = true \/ (max_autocompleted_cells < autocompleted cols rows nonempty)%N \/ this_row = None.
 Proof.
   intros. unfold try_opening_row_cells. destruct blank; [split; auto|].
-  destruct (N.ltb max_autocompleted_cells (N.of_nat (autocompleted cols rows nonempty))) eqn:E.
+  destruct (N.ltb max_autocompleted_cells (autocompleted cols rows nonempty)) eqn:E.
   - apply N.ltb_lt in E. split; auto.
   - apply N.ltb_ge in E. destruct this_row as [cells|].
     + rewrite cell_loop_spec by lia. rewrite cell_loop_spec by lia.
